@@ -1,10 +1,6 @@
 #!/bin/sh
-# Offline setup: optional third-party contracts library beside the repo's interpreter, then a self-test.
+# Offline setup: nothing to build (pure Python, stdlib + the repository's own dependencies); run the self-test.
 HERE="$(cd "$(dirname "$0")" && pwd)"
 cd "$HERE" || exit 1
 PY="${D42_PY:-/venv/bin/python}"
-if [ ! -d .deps/icontract ]; then
-  "$PY" -m pip install --quiet --no-index --find-links /opt/veriftools/wheels --target .deps icontract >/dev/null 2>&1 \
-    || echo "setup: icontract not installed (framework falls back to its own wrappers)"
-fi
 PYTHONDONTWRITEBYTECODE=1 PYTHONPATH=/repo:"$HERE" "$PY" -m rv.selftest
